@@ -506,6 +506,52 @@ pub fn run(ctx: &Ctx) -> i32 {
         }
     });
     rep.add(out);
+    // a fixed family: diagnostics that relate TWO documents (the same declaration in both, a constant
+    // global in one and a plain external of it in the other).  Every form x which document is opened
+    // last x which of the two holds the extra text: the publication for a document carries what
+    // `check` reports for THAT file - a diagnostic whose reported position lies in the other
+    // document is not published for this one (and never with the other document's coordinates)
+    {
+        let forms: Vec<(String, String)> = vec![
+            ("FUNCTION_BLOCK shared_fb\nVAR_INPUT\ni : INT;\nEND_VAR\nEND_FUNCTION_BLOCK\n".to_string(), "FUNCTION_BLOCK shared_fb\nVAR_INPUT\ni : INT;\nEND_VAR\nEND_FUNCTION_BLOCK\n".to_string()),
+            ("PROGRAM shared_p\nVAR\nq : INT;\nEND_VAR\nq := 1;\nEND_PROGRAM\n".to_string(), "PROGRAM shared_p\nVAR\nq : INT;\nEND_VAR\nq := 1;\nEND_PROGRAM\n".to_string()),
+            ("TYPE\nshared_t : (sa, sb);\nEND_TYPE\n".to_string(), "TYPE\nshared_t : (sa, sb);\nEND_TYPE\n".to_string()),
+            ("FUNCTION shared_f : INT\nVAR_INPUT\ni : INT;\nEND_VAR\nshared_f := i;\nEND_FUNCTION\n".to_string(), "FUNCTION shared_f : INT\nVAR_INPUT\ni : INT;\nEND_VAR\nshared_f := i;\nEND_FUNCTION\n".to_string()),
+            ("TYPE\nshared_x : (xa, xb);\nEND_TYPE\n".to_string(), "FUNCTION_BLOCK shared_x\nVAR\nv : INT;\nEND_VAR\nEND_FUNCTION_BLOCK\n".to_string()),
+            (
+                "CONFIGURATION cfg\nVAR_GLOBAL CONSTANT\nlim : INT := 5;\nEND_VAR\nRESOURCE r ON cpu\nPROGRAM inst : prog;\nEND_RESOURCE\nEND_CONFIGURATION\n".to_string(),
+                "FUNCTION_BLOCK user\nVAR_EXTERNAL\nlim : INT;\nEND_VAR\nEND_FUNCTION_BLOCK\nPROGRAM prog\nVAR\nu : user;\nEND_VAR\nEND_PROGRAM\n".to_string(),
+            ),
+        ];
+        let pads = ["", "(* five\nlines\nof\ncomment\nin front *)\n   "];
+        let mut items: Vec<Vec<Note>> = vec![];
+        for (fa, fb) in &forms {
+            for pad_a in pads {
+                for pad_b in pads {
+                    let ta = format!("{}{}", pad_a, fa);
+                    let tb = format!("{}{}", pad_b, fb);
+                    let a = Note { uri_idx: 0, text: ta.clone(), stale: None, reopen: false };
+                    let b = Note { uri_idx: 1, text: tb.clone(), stale: None, reopen: false };
+                    items.push(vec![a.clone(), b.clone()]);
+                    items.push(vec![b.clone(), a.clone()]);
+                    items.push(vec![a.clone(), b.clone(), Note { uri_idx: 0, text: ta.clone(), stale: None, reopen: false }]);
+                }
+            }
+        }
+        let out = run_items(&items, ctx.threads, |notes, stats| {
+            stats.case(true, hash_str(&format!("{:?}", notes.iter().map(|n| (n.uri_idx, n.text.clone())).collect::<Vec<_>>())));
+            stats.class("cross-document.fixed");
+            match judge_history(&refs, notes, true) {
+                Ok(()) => Ok(()),
+                Err((k, _)) if k == "infrastructure-timeout" => {
+                    stats.inconclusive += 1;
+                    Ok(())
+                }
+                Err((k, d)) => Err(Failure::new("history", &k, d, json!({"history": notes.iter().map(|n| json!({"uri": (if n.uri_idx == 0 { "a.st" } else { "b.st" }), "text": n.text, "stale": n.stale, "reopen": n.reopen})).collect::<Vec<_>>()}))),
+            }
+        });
+        rep.add(out);
+    }
     rep.exhaustive = Some(false);
     rep.extra.insert("exhaustive_history_length".into(), json!(ctx.tier.pick(3, 4)));
     let cases = ctx.tier.pick(2_000, 30_000);
